@@ -80,3 +80,12 @@ def parse_command(frame: bytes) -> dict:
     if crc8(body[:-1]) != body[-1]:
         raise RefError("body crc")
     return {"frame_type": f[9], "body": body[:-2], "msg_id": body[-2], "proto": f[8]}
+
+
+def build_command(body: bytes, frame_type: int = FT_QUERY, msg_id: int = 1) -> bytes:
+    """A command frame as a conforming controller would send it (body + message id + CRC-8)."""
+    return build(bytes(body) + bytes([msg_id & 0xFF]), frame_type, check="crc")
+
+
+def state_query(msg_id: int = 1) -> bytes:
+    return build_command(bytes([0x41, 0x81, 0x00, 0xFF, 0x03, 0xFF, 0x00, 0x02]) + bytes(12) + b"\x03", FT_QUERY, msg_id)
